@@ -146,6 +146,79 @@ def start_overlap_case(watch: str) -> dict:
         return {'watch': watch, 'error': f'{type(e).__name__}: {e}'}
 
 
+def cancel_requester_case(api: str, delay: int) -> dict:
+    """The task that requested the non-interactive run is cancelled `delay` loop steps after the request (a time-out around the call).
+    Whatever that does to the requester: if a run is in flight afterwards it is that request's run — the flag must be on and its
+    prompts answered until it finishes; if none is, the flag must be off."""
+    import asyncio
+    from .. import fakes, loop as ctl
+    from nextline.spawned import RunResult
+
+    async def main() -> dict:
+        sc = lifecycle.Scenario(0, 1, False, False)
+        await sc.setup()
+        nl = sc.nl
+        await sc.op('start')
+        flags: list = []
+
+        async def watch_flag() -> None:
+            async for b in nl.subscribe_continuous_enabled():
+                flags.append(bool(b))
+        wf = asyncio.ensure_future(watch_flag())
+        await lifecycle.settle()
+        t = asyncio.ensure_future(nl.run_and_continue() if api == 'rac' else nl.run_continue_and_wait())
+        for _ in range(delay):
+            await asyncio.sleep(0)
+        t.cancel()
+        await lifecycle.settle()
+        out: dict = {'api': api, 'delay': delay, 'state': nl.state, 'live': len(sc.world.live()), 'enabled': nl.continuous_enabled,
+                     'requester': 'cancelled' if t.cancelled() else (f'raised {type(t.exception()).__name__}' if t.done() and t.exception() else
+                                                                    ('returned' if t.done() else 'still waiting'))}
+        if sc.world.live():
+            rep = await sc.op('prompt')
+            out['commands_at_prompt'] = rep.split().count('cmd')
+        for c in sc.world.live():
+            c.exit(RunResult(ret=5), exitcode=0)
+        await lifecycle.settle()
+        out.update(state_after=nl.state, enabled_after=nl.continuous_enabled)
+        try:
+            await asyncio.wait_for(nl.close(), timeout=5)
+        except BaseException:  # noqa
+            pass
+        await lifecycle.settle()
+        out['published'] = flags
+        wf.cancel()
+        t.cancel()
+        return out
+    fakes.install()
+    try:
+        return ctl.run(main, ctl.Fifo())
+    except (Exception, ctl.StepBudgetExceeded) as e:  # noqa
+        return {'api': api, 'delay': delay, 'error': f'{type(e).__name__}: {e}'}
+
+
+def cancel_requester_oracle(r: dict) -> list[str]:
+    if 'error' in r:
+        return [f'scenario failed: {r["error"]}']
+    who = (f"the task that called {'run_and_continue' if r['api'] == 'rac' else 'run_continue_and_wait'}() was cancelled {r['delay']} loop step(s) "
+           f"after the call (requester: {r['requester']})")
+    m = []
+    if r['state'] == 'running' and r['live']:
+        if not r['enabled']:
+            m.append(f'{who}; the run it requested is in flight, but continuous_enabled is False')
+        if r.get('commands_at_prompt') != 1:
+            m.append(f"{who}; the run it requested is in flight, but its prompt was answered {r.get('commands_at_prompt')} time(s)")
+        if r['state_after'] != 'finished' or r['enabled_after']:
+            m.append(f"{who}; after the child exited the state is {r['state_after']!r} and continuous_enabled is {r['enabled_after']}")
+        pub = r['published']
+        if True not in pub or pub[pub.index(True):].count(False) != 1 or pub[-1] is not False:
+            m.append(f'{who}; publications of the flag around that run: {pub} (expected …, True, False)')
+    elif r['state'] == 'initialized' and not r['live']:
+        if r['enabled']:
+            m.append(f'{who}; no run is in flight, but continuous_enabled is True')
+    return m
+
+
 def run(chk: common.Check) -> None:
     chk.cov.rule = ('serial histories (as C01) mixing run, run_and_continue, run_continue_and_wait, reset, close — accepted or refused — with the '
                     'simulated child emitting prompts: a continuous run\'s prompt must be answered by the Continue plugin, an interactive run\'s '
@@ -186,6 +259,16 @@ def run(chk: common.Check) -> None:
                 m.append(f'publications of the flag around that run: {pub} (expected …, True, False)')
         if m:
             oracle_fail.append(({'start_overlap': r}, m, None))
+    for api in ('rac', 'rcw'):
+        # (delay 1 is the window of the recorded finding F-A3 — cancelling the caller of run() at its first suspension leaves the object stuck —
+        # which belongs to C01/C02's known findings, not to this property)
+        for delay in (0, 2, 3, 4, 5, 6, 8, 12):
+            r = cancel_requester_case(api, delay)
+            chk.cov.case(('requester-cancelled', api, delay))
+            chk.cov.count('kinds', 'requester-of-a-non-interactive-run-is-cancelled')
+            m = cancel_requester_oracle(r)
+            if m:
+                oracle_fail.append(({'cancel_requester': r}, m, None))
     for mode in ('rac', 'rcw'):
         for hook_name in ('on_start_trace',):
             if mode == 'rcw':
